@@ -20,7 +20,8 @@ COMPONENTS = {"real": ["Exchange", "Broker", "Rebalancing.make_trades", "Weights
               "harness": ["user-defined AbstractContract subclasses", "Fraction filter model"], "stub": []}
 PROBE_FLOORS = {"exact_threshold_emit": 5, "below_threshold_skip": 50, "liquidation_below_threshold": 10,
                 "sublot_skip": 30, "negative_truncation": 20, "env_below_threshold_skip": 100,
-                "env_at_or_above_threshold_emit": 300, "market_moved_between_preview_and_execution": 600}
+                "env_at_or_above_threshold_emit": 300, "market_moved_between_preview_and_execution": 600,
+                "xy_below_threshold_skip": 1000, "xy_emit_between_threshold_and_spread": 300}
 
 PROFILE = {
     "oracles": ["c12"],
@@ -33,7 +34,105 @@ PROFILE = {
 }
 
 
+def generate_xy(rng, i):
+    """The tabular environment configured with a threshold (`margin`) and a spread of its own - thresholds below,
+    at and above the spread, including none at all: the filter applies the *configured* threshold."""
+    from tesim import xy
+    tb = xy.gen_tables(rng, {"n_min": 40, "n_max": 70, "freqs": ["D"]})
+    ny = len(tb["ycols"])
+    for r, row in enumerate(tb["Y"]):
+        for j, v in enumerate(row):
+            if v != v:
+                row[j] = tb["Y"][r - 1][j] if r > 0 else 100.0
+    kw = {"window": 1, "stride": None, "spread": rng.choice([0.01, 0.01, 0.001, 0.0]), "transformer": None, "clip": 5.0,
+          "steps_delay": 0, "margin": rng.choice([0.0, 0.002, 0.005, 0.02, 0.05]), "calendar": "24/7", "latency": 0}
+    acts = []
+    a = [round(rng.uniform(0.05, 0.3), 3) for _ in range(ny)]
+    for k in range(14):
+        a = [round(min(0.9, max(-0.9, x + rng.choice([0, 0, 0.001, -0.001, 0.003, -0.003, 0.006, -0.006, 0.015, -0.015, 0.06, -0.06]))), 4) for x in a]
+        if rng.random() < 0.1:
+            a[rng.randrange(ny)] = 0.0
+        acts.append(list(a))
+    return {"kind": "xy", "tables": tb, "kwargs": kw, "fold": None, "actions": acts, "np_seed": rng.randrange(2 ** 31)}
+
+
+def execute_xy(scenario):
+    import warnings
+    import numpy as np
+    from fractions import Fraction as F
+    from tesim import xy, core, epicheck
+    violations, probes, violate, probe = epicheck.mk_violation_sink()
+    kw = scenario["kwargs"]
+    thr = F(kw["margin"])
+    log = []
+    trades = 0
+    with core.sim_context():
+        try:
+            env, X0, Y0, rate0 = xy.make_env(scenario)
+        except Exception as e:
+            return {"violations": [], "digest": core.digest(["build", core.exc_name(e)]), "probes": {"build_refused": 1}, "faults": {},
+                    "stats": {"ops": 1}, "trace": "xy-refused", "nontrivial": False}
+        cols = list(env.Y.columns)
+        np.random.seed(scenario.get("np_seed", 0) % (2 ** 32))
+        with warnings.catch_warnings():
+            warnings.simplefilter("ignore")
+            try:
+                env.reset()
+            except Exception as e:
+                return {"violations": [], "digest": core.digest(["reset", core.exc_name(e)]), "probes": {"reset_refused": 1}, "faults": {},
+                        "stats": {"ops": 1}, "trace": "xy-reset-refused", "nontrivial": False}
+            done = bool(getattr(env, "_done", False))
+            k = 0
+            while not done and k < len(scenario["actions"]) and not violations:
+                w_vec = scenario["actions"][k]
+                books = {c: (env.exchange[c].bid_price, env.exchange[c].ask_price) for c in cols}
+                hold = env.broker.holdings_quantity
+                try:
+                    obs, reward, done, info = env.step(np.array(w_vec, dtype=float))
+                except Exception as e:
+                    if core.exc_name(e) != "EndOfEpisodeError":
+                        violate("unexpected_exception", "tabular environment: step {} raised {!r}".format(k, e), op=k, exc=core.exc_name(e), where="step", site="xy")
+                    break
+                reb = info.get("_rebalancing")
+                if reb is None:
+                    break
+                got = {t.contract: t.quantity for t in reb.trades}
+                nlv = F(float(reb.context_pre.nlv))
+                log.append([k, sorted((str(c.symbol), float(q)) for c, q in got.items())])
+                trades += len(got)
+                for j, c in enumerate(cols):
+                    w = float(w_vec[j])
+                    pos = F(float(hold.get(c, 0.0)))
+                    bid, ask = books[c]
+                    if bid != bid or ask != ask or nlv <= 0:
+                        continue
+                    target = F(w) * nlv / F(ask if w > 0 else bid) if w != 0 else F(0)
+                    imb = target - pos
+                    zone = F(1, 10 ** 9) * max(1, abs(imb), abs(target), abs(pos))
+                    if abs(imb) <= zone:
+                        continue
+                    iw = imb * F(ask if imb > 0 else bid) / nlv
+                    if abs(abs(iw) - thr) <= F(1, 10 ** 9) * max(1, thr):
+                        continue
+                    liquidation = (w == 0)
+                    emit = liquidation or abs(iw) >= thr
+                    if emit != (c in got):
+                        kind = "liquidation_skipped" if liquidation else ("emitted_below_threshold" if c in got else "skipped_at_or_above_threshold")
+                        violate("filter_emission", "tabular environment (margin {}, spread {}): step {}: {}: imbalance weight {} target {}: expected emit={} got {}".format(
+                            kw["margin"], kw["spread"], k, c.symbol, float(iw), w, emit, c in got), op=k, kind=kind)
+                        break
+                    probe("xy_at_or_above_threshold_emit" if emit else "xy_below_threshold_skip")
+                    if emit and kw["spread"] > kw["margin"] and abs(iw) < F(kw["spread"]):
+                        probe("xy_emit_between_threshold_and_spread")
+                k += 1
+    trace = "xy|m{}|s{}|n{}".format(kw["margin"], kw["spread"], len(log))
+    return {"violations": violations, "digest": core.digest(log), "probes": probes, "faults": {},
+            "stats": {"ops": len(log), "steps": len(log), "trades": trades, "rebalances": len(log)}, "trace": trace, "nontrivial": trades >= 1 and len(probes) >= 1}
+
+
 def generate(rng, i):
+    if i % 12 == 7:
+        return generate_xy(rng, i)
     if i % 6 == 5:
         from tesim.props import c12_epi
         return c12_epi.generate(rng, i)
@@ -51,6 +150,8 @@ def generate(rng, i):
 
 
 def execute(scenario):
+    if scenario.get("kind") == "xy":
+        return execute_xy(scenario)
     if scenario.get("kind") == "epi":
         from tesim.props import c12_epi
         return c12_epi.execute(scenario)
@@ -58,6 +159,8 @@ def execute(scenario):
 
 
 def describe(scenario):
+    if scenario.get("kind") == "xy":
+        return {"kind": "xy", "kwargs": scenario["kwargs"], "rows": len(scenario["tables"]["Y"]), "actions": len(scenario["actions"])}
     if scenario.get("kind") == "epi":
         from tesim import gen_epi
         return gen_epi.describe(scenario)
@@ -65,6 +168,8 @@ def describe(scenario):
 
 
 def shrink_paths(scenario):
+    if scenario.get("kind") == "xy":
+        return [("actions",)]
     return [("script",)]
 
 
@@ -72,6 +177,8 @@ from tesim.props.c01 import simplify as _simplify_acct  # noqa: E402
 
 
 def simplify(scenario):
+    if scenario.get("kind") == "xy":
+        return
     if scenario.get("kind") == "epi":
         return
     for c in _simplify_acct(scenario):
